@@ -147,7 +147,8 @@ class Poison(object):
         self.real_empty = numpy.empty
         self.real_empty_like = numpy.empty_like
         self.count = 0
-        self.on = False
+        self._on = False
+        self._installed = False
         self.hits = 0
 
     def _from_aotools(self):
@@ -178,13 +179,30 @@ class Poison(object):
             self._fill(a)
         return a
 
+    # The wrappers are in place only while `on` is set (i.e. during the calls the plan poisons): a numba kernel that the tree
+    # under test compiles for the first time resolves numpy's functions as globals, and cannot type a Python wrapper.
+    @property
+    def on(self):
+        return self._on
+
+    @on.setter
+    def on(self, value):
+        value = bool(value)
+        if value and not self._installed:
+            self.np.empty = self.empty
+            self.np.empty_like = self.empty_like
+            self._installed = True
+        elif not value and self._installed:
+            self.np.empty = self.real_empty
+            self.np.empty_like = self.real_empty_like
+            self._installed = False
+        self._on = value
+
     def install(self):
-        self.np.empty = self.empty
-        self.np.empty_like = self.empty_like
+        pass
 
     def uninstall(self):
-        self.np.empty = self.real_empty
-        self.np.empty_like = self.real_empty_like
+        self.on = False
 
 
 
@@ -209,6 +227,7 @@ class AllocFault(object):
     def __init__(self):
         self.real = dict((n, self._get(n)) for n in self.NAMES)
         self.countdown = None
+        self._installed = False
         self.fired = 0
         self.seen = 0
 
@@ -233,20 +252,28 @@ class AllocFault(object):
         f.__name__ = name.split(".")[-1]
         return f
 
+    # The wrappers are in place only between arm() and disarm() (one library call): a numba kernel that the tree under test
+    # compiles for the first time resolves numpy's functions as globals, and cannot type a Python wrapper.
     def arm(self, nth):
         self.countdown = int(nth)
+        if not self._installed:
+            self.real = dict((n, self._get(n)) for n in self.NAMES)       # whatever is there now (possibly Poison's wrappers)
+            for n in self.NAMES:
+                self._set(n, self._wrap(n))
+            self._installed = True
 
     def disarm(self):
         self.countdown = None
+        if self._installed:
+            for n, f in self.real.items():
+                self._set(n, f)
+            self._installed = False
 
     def install(self):
-        self.real = dict((n, self._get(n)) for n in self.NAMES)       # whatever is there now (possibly Poison's wrappers)
-        for n in self.NAMES:
-            self._set(n, self._wrap(n))
+        pass
 
     def uninstall(self):
-        for n, f in self.real.items():
-            self._set(n, f)
+        self.disarm()
 
 
 # ---- ambient (global) RNG state -----------------------------------------------------------------------
